@@ -253,6 +253,19 @@ package server
 //@ callers (*partition).processPendingMessage serves C04: (*partition).messageProcessingLoop
 //@ callers (*partition).sendTooLargeNack serves C04: (*partition).messageProcessingLoop
 
+// A leadership term starts without knowledge of the followers' progress (C02, C04): the offsets replicas reported to
+// this server in an EARLIER term of its own say nothing about what they hold now - everybody, this server included,
+// may have truncated in the term in between - and they are the input of the commit rule (HW = min over the ISR)
+//@ ghost var progressForgotten bool
+//@ func (*replica).setLatestOffset serves C02, C04
+//@   requires r != nil
+//@   ensures r.offset == offset
+//@ func (*partition).resetISRProgress serves C02, C04
+//@   requires p != nil
+//@   assumes p.srv != nil && p.srv.config != nil && (forall k string :: (k in p.isr) ==> p.isr[k] != nil)
+//@   ensures assumed [every-in-sync-replica-starts-the-term-afresh] forall id string :: (id in p.isr) && p.isr[id] != nil && id != p.srv.config.Clustering.ServerID ==> p.isr[id].offset == -1
+// (the obligation itself is a clause of becomeLeader's contract, further down with the one for C11)
+
 // Leader side (C02): which replication requests count, and when a replica may rejoin the in-sync set.
 // A request is served - and the replica's progress recorded from it - only if it names the current leader epoch (0 =
 // "not known yet" is what a follower sends before its first response): a follower still fetching in an older epoch has
@@ -906,12 +919,15 @@ package server
 //@   assumes c != nil
 //@   ghost after call Purge: ghost.curCached := reset()
 //@   ensures [cache-emptied] forall k string :: !ghost.curCached[k]
-//@ func (*partition).becomeLeader serves C11
+//@ func (*partition).becomeLeader serves C11, C02
 //@   requires p != nil
-//@   assumes p.srv != nil && p.srv.cursors != nil && (forall k string :: (k in p.isr) ==> p.isr[k] != nil)
+//@   assumes p.srv != nil && p.srv.config != nil && p.srv.cursors != nil && (forall k string :: (k in p.isr) ==> p.isr[k] != nil)
 //@   ghost at entry: ghost.purged := false
 //@   ghost after call BecomePartitionLeader: ghost.purged := true
-//@   ensures [cursor-cache-purged] result == nil && old(p.Partition.Stream) == cursorsStream ==> ghost.purged
+//@   ensures [C11:cursor-cache-purged] result == nil && old(p.Partition.Stream) == cursorsStream ==> ghost.purged
+//@   ghost at entry: ghost.progressForgotten := false
+//@   ghost after call resetISRProgress: ghost.progressForgotten := arg0 == p
+//@   call startReplicating requires [C02:a-term-starts-without-the-followers'-earlier-progress] ghost.progressForgotten
 
 // Telemetry opt-out through the environment (property C19): LIFTBRIDGE_TELEMETRY_ENABLED=false switches telemetry
 // off whatever the configuration file says, and also when there is no configuration file
